@@ -7,7 +7,7 @@ key's own file is written.  It does NOT decide the behaviour of real file system
 """
 import ast
 
-from ..model import AnalysisError, src, callee_name, dotted, walk_local, calls_in, FUNC
+from ..model import AnalysisError, src, callee_name, dotted, walk_local, calls_in, FUNC, pos
 from ..flow import Sem, path_conditions, split_conj
 from ..callgraph import CallGraph
 from ..selftest import Seed
@@ -96,19 +96,19 @@ class SyncSem(Sem):
             f = c.func
             if isinstance(f, ast.Attribute) and isinstance(f.value, ast.Name) and f.value.id == self.fvar:
                 if f.attr in ("write", "writelines", "truncate", "seek"):
-                    ev.append((c.lineno, c.col_offset, "write"))
+                    ev.append((pos(c), 0, "write"))
                 elif f.attr == "flush":
-                    ev.append((c.lineno, c.col_offset, "flush"))
+                    ev.append((pos(c), 0, "flush"))
             if dotted(f) in ("os.fsync", "os.fdatasync") and c.args:
                 a = c.args[0]
                 ok = isinstance(a, ast.Call) and isinstance(a.func, ast.Attribute) and a.func.attr == "fileno" and \
                     isinstance(a.func.value, ast.Name) and a.func.value.id == self.fvar
-                ev.append((c.lineno, c.col_offset, "fsync" if ok else "fsync-other"))
+                ev.append((pos(c), 0, "fsync" if ok else "fsync-other"))
             # the file object escaping into a helper: unknown effect => treat as a write
             if not (isinstance(f, ast.Attribute) and isinstance(f.value, ast.Name) and f.value.id == self.fvar):
                 for a in list(c.args) + [k.value for k in c.keywords]:
                     if isinstance(a, ast.Name) and a.id == self.fvar:
-                        ev.append((c.lineno, c.col_offset, "write"))
+                        ev.append((pos(c), 0, "write"))
         return [e[2] for e in sorted(ev)]
 
     def transfer(self, st, state):
@@ -565,7 +565,7 @@ def _check_isolation(ctx, cg, writers):
                            construct=f"makedirs {src(c.args[0])}")
                     # it precedes the open of the file
                     opens = [o for o in calls_in(f.node) if callee_name(o) == "open"]
-                    ctx.ob("C17-R4", fq, "makedirs precedes the open of the key's file", all(c.lineno < o.lineno for o in opens),
+                    ctx.ob("C17-R4", fq, "makedirs precedes the open of the key's file", all(pos(c) < pos(o) for o in opens),
                            node=c, construct="makedirs before open")
                 else:
                     ctx.ob("C17-R4", fq, "no delete/rename/other file-system mutation on the set path", False, node=c,
